@@ -24,7 +24,8 @@ _CMP = {'==': lambda a, b: a == b, '!=': lambda a, b: a != b, '<': lambda a, b: 
         '>': lambda a, b: a > b, '>=': lambda a, b: a >= b}
 _SWAP = {'<': '>', '<=': '>=', '>': '<', '>=': '<=', '==': '==', '!=': '!='}
 _ARITH = {'+': lambda a, b: a + b, '-': lambda a, b: a - b, '*': lambda a, b: a * b, '&': lambda a, b: a & b,
-          '|': lambda a, b: a | b, '^': lambda a, b: a ^ b, '<<': lambda a, b: a << b, '>>': lambda a, b: a >> b}
+          '|': lambda a, b: a | b, '^': lambda a, b: a ^ b, '<<': lambda a, b: a << b, '>>': lambda a, b: a >> b,
+          '%': lambda a, b: (abs(a) % abs(b)) * (1 if a >= 0 else -1), '/': lambda a, b: (abs(a) // abs(b)) * (1 if (a >= 0) == (b >= 0) else -1)}
 COMMUTATIVE = ('+', '*', '&', '|', '^', '==', '!=', '&&', '||')
 CASTS = ('ImplicitCastExpr', 'CStyleCastExpr', 'CXXFunctionalCastExpr', 'CXXStaticCastExpr', 'ParenExpr', 'ExprWithCleanups',
          'MaterializeTemporaryExpr', 'CXXBindTemporaryExpr', 'ConstantExpr', 'SubstNonTypeTemplateParmExpr',
@@ -72,7 +73,7 @@ class Norm:
                 d = single_def(self.f, r['id'])
                 if d is None:
                     d = reaching_def(self.f, n)
-                if d is None and (self.env or self.assume):
+                if d is None and (self.env or self.assume or self.val):
                     d = self.feasible_def(n)
                 if d is None or not self.stable_between(d, n):
                     break
@@ -163,11 +164,16 @@ class Norm:
         try:
             if self._depth > 6:
                 return None
+            common = {(c['i'], t) for c, t in all_guards(f, use)}
             for anchor, val in defs:
                 ok = True
                 for c, t in all_guards(f, anchor):
+                    if (c['i'], t) in common:
+                        continue            # holds at the use as well: does not discriminate between the definitions
                     v = self.cval(c)
-                    if v is not None and bool(v) != t:
+                    if v is None:
+                        return None          # a definition that may or may not run: no single value
+                    if bool(v) != t:
                         ok = False
                         break
                 if ok:
@@ -373,6 +379,33 @@ class Norm:
                         val = sub.cval(kids(v)[0])
                         if val is not None:
                             sub.env[v['name']] = val
+                continue
+            if st['k'] == 'SwitchStmt':
+                ks = kids(st)
+                sel = sub.cval(ks[0])
+                body = kids(ks[-1]) if ks[-1]['k'] == 'CompoundStmt' else [ks[-1]]
+                if sel is None:
+                    return None
+                start = None
+                for i, lab in enumerate(body):
+                    if lab['k'] == 'CaseStmt' and lab.get('casev') == sel:
+                        start = i
+                        break
+                if start is None:
+                    for i, lab in enumerate(body):
+                        if lab['k'] == 'DefaultStmt':
+                            start = i
+                if start is None:
+                    continue
+                for lab in body[start:]:
+                    x = lab
+                    while x['k'] in ('CaseStmt', 'DefaultStmt'):
+                        x = kids(x)[-1]
+                    if x['k'] == 'ReturnStmt':
+                        return sub.cval(kids(x)[0]) if kids(x) else None
+                    if x['k'] == 'BreakStmt':
+                        break
+                    return None
                 continue
             return None
         return None
